@@ -9,8 +9,8 @@ import common as C
 import xp
 
 TIERS = {
-    "quick": dict(cfg="MC_XPathCost_quick.cfg", xpcfg="MC_XPath_tiny.cfg", garbage=40000, sample=400, timeout=900),
-    "thorough": dict(cfg="MC_XPathCost_thorough.cfg", xpcfg="MC_XPath_quick.cfg", garbage=1000000, sample=5000, timeout=3000),
+    "quick": dict(cfg="MC_XPathCost_quick.cfg", xpcfg="MC_XPath_tiny.cfg", sccfg="MC_Scalar_quick.cfg", garbage=40000, sample=400, timeout=900),
+    "thorough": dict(cfg="MC_XPathCost_thorough.cfg", xpcfg="MC_XPath_quick.cfg", sccfg="MC_Scalar_thorough.cfg", garbage=1000000, sample=5000, timeout=3000),
 }
 
 
@@ -76,6 +76,33 @@ def run(prop, tier):
         with open(cases, "a") as f, open(xpr) as g:
             for line in g:
                 f.write(line)
+        # ... and every application of a core function / operator of MC_Scalar (out-of-range and ill-typed arguments):
+        # its own document, renumbered so that it cannot be mistaken for one of MC_XPath's
+        scr = os.path.join(wd, "sc.replay")
+        mc3 = C.run_tlc("MC_Scalar", t["sccfg"], "xpcostmc3", to_file=scr, workers=8, timeout=t["timeout"],
+                        keep_tags=["REPLAY", "DOC"])
+        C.tlc_must_pass(mc3, "MC_Scalar")
+        out.add_tlc(mc3)
+        n_scalar = 0
+        with open(cases, "a") as f:
+            for want in ("doc", "xp"):
+                with open(scr) as g:
+                    for line in g:
+                        u = C._unwrap(line.rstrip("\n"))
+                        if not u:
+                            continue
+                        e = u[1]
+                        if e.get("k") != want:
+                            continue
+                        e["doc"] = 1000 + e["doc"]
+                        if want == "xp":
+                            e = {"k": "xp", "doc": e["doc"], "sp": e["sp"][:1]}
+                            n_scalar += 1
+                        f.write('<<"REPLAY", %s>>\n' % json.dumps(json.dumps(e)))
+        os.unlink(scr)
+        if n_scalar == 0:
+            raise C.ToolError("MC_Scalar emitted no case")
+        out.extra["scalar_applications"] = n_scalar
         trace = os.path.join(wd, "cost.trace")
         stats_p = os.path.join(wd, "cost.stats")
         _run_total(wd, ["xp-total", "--in", cases, "--trace", trace, "--stats", stats_p, "--garbage", str(t["garbage"]),
@@ -97,9 +124,11 @@ def run(prop, tier):
         out.rule = ("one evaluation = one call of xml_xpath::query in a child process with a 15 s wall-clock limit; non-trivial = the "
                     "call returned a value (the rest returned an error)")
         out.assumptions = [
-            "families parens/parenpath/preds/steps/dsteps/unions/minus/deeppred/args/ors/filters for n <= 40 exhaustively "
-            "chosen sizes plus deep members (n up to 3000 quick / 20000 thorough); 45 named constructs (unsupported "
-            "features, steps that select nothing, ill-typed and out-of-range arguments) on 3 documents",
+            "families parens/parenpath/preds/steps/dsteps/unions/minus/deeppred/selfpred/args/ors/filters/updown/updownaxes/"
+            "deepdsteps (a chain of 24 elements) for n <= 40 exhaustively chosen sizes plus deep members (n up to 3000 quick / "
+            "20000 thorough); prologaxes: every axis from 8 kinds of context node of a document with prolog comment, DOCTYPE, PI "
+            "and epilog; 58 named constructs (unsupported features, node-type tests with a literal, steps that select nothing, "
+            "ill-typed and out-of-range arguments) on 4 documents; every application of MC_Scalar (first spelling)",
             "garbage: seeded strings of <= 12 tokens over a 66-token XPath alphabet and single edits of valid spellings",
             "time is the CPU time of the call in the child (no tick hook in /repo; 10 ms resolution), the wall-clock limit "
             "of a call is 15 s: the bound MaxMs(F, n) = 1000 + n^2 ms only separates polynomial from exponential "
